@@ -69,21 +69,6 @@ def flattenQuad (p0 p1 p2 : Pt Float) (tol : Float) : Option (List (Pt Float)) :
 
 /-! flattenSmoothCubicBezier / strokeCubicBezier with d = 0 -/
 
-def cubStep (tol : Float) (c : Cub Float) : CStep Float :=
-  let body (D : Pt Float) : CStep Float :=
-    let denom := len D
-    let s2nom := GenF.Point.PerpDot D (GenF.Point.Sub c.p2 c.p0)
-    let s2inv := denom / s2nom
-    let t2 := 2.0 * Float.sqrt (tol * Float.abs s2inv / 3.0)
-    let s3nom := GenF.Point.PerpDot D (GenF.Point.Sub c.p3 c.p0)
-    let s3inv := denom / s3nom
-    let t3 := 2.0 * Float.cbrt (tol * Float.abs s3inv)
-    let t := goMin t2 t3
-    if 1.0 <= t then .stop else .cut t
-  if ptEquals c.p0 c.p1 then
-    if ptEquals c.p0 c.p2 then .straight else body (GenF.Point.Sub c.p2 c.p0)
-  else body (GenF.Point.Sub c.p1 c.p0)
-
 def cubKeep (c : Cub Float) : Bool :=
   !(ptEquals c.p0 c.p3 && (ptEquals c.p0 c.p1 || ptEquals c.p0 c.p2))
 
@@ -93,6 +78,54 @@ def cubSplit (c : Cub Float) (t : Float) : Cub Float × Cub Float :=
 
 def cubSplitR (c : Cub Float) (t : Float) : Cub Float := (cubSplit c t).2
 def cubSplitL (c : Cub Float) (t : Float) : Cub Float := (cubSplit c t).1
+
+/-- Point.Norm(1.0) (util.go:336) -/
+def norm1 (p : Pt Float) : Pt Float :=
+  let d := len p
+  if d == 0.0 then ⟨0.0, 0.0⟩ else ⟨p.x / d * 1.0, p.y / d * 1.0⟩
+
+/-- cubicBezierDeviation (path_util.go:702, f410714 + 07f2911): 3/4 of the larger distance of the inner
+control points from the chord SEGMENT, plus |d|·(1 − cos α) for an offset curve -/
+def cubicDeviation (c : Cub Float) (d : Float) : Float :=
+  let chord := GenF.Point.Sub c.p3 c.p0
+  let dist (q : Pt Float) : Float :=
+    let q := GenF.Point.Sub q c.p0
+    let u := GenF.Point.Dot q chord
+    if u <= 0.0 then len q
+    else if GenF.Point.Dot chord chord <= u then len (GenF.Point.Sub q chord)
+    else Float.abs (GenF.Point.PerpDot chord q) / len chord
+  let dev := 0.75 * goMax (dist c.p1) (dist c.p2)
+  if d != 0.0 then
+    let n := norm1 chord
+    let eps := 1e-14 * (Float.abs c.p0.x + Float.abs c.p0.y + Float.abs c.p3.x + Float.abs c.p3.y)
+    let legs := [GenF.Point.Sub c.p1 c.p0, GenF.Point.Sub c.p2 c.p1, GenF.Point.Sub c.p3 c.p2]
+    let cos := legs.foldl (fun cos leg =>
+      let l := len leg
+      if eps < l then goMin cos (GenF.Point.Dot leg n / l) else cos) 1.0
+    dev + Float.abs d * (1.0 - cos)
+  else dev
+
+/-- the step-halving loop of flattenSmoothCubicBezier (at most 20 halvings) -/
+def halve (tol : Float) (c : Cub Float) : Nat → Float → Float
+  | 0, t => t
+  | n + 1, t => if 4.0 * tol < cubicDeviation (cubSplitL c t) 0.0 then halve tol c n (t / 2.0) else t
+
+def cubStep (tol : Float) (c : Cub Float) : CStep Float :=
+  let body (D : Pt Float) : CStep Float :=
+    let denom := len D
+    let s2nom := GenF.Point.PerpDot D (GenF.Point.Sub c.p2 c.p0)
+    let s2inv := denom / s2nom
+    let t2 := 2.0 * Float.sqrt (tol * Float.abs s2inv / 3.0)
+    let s3nom := GenF.Point.PerpDot D (GenF.Point.Sub c.p3 c.p0)
+    let s3inv := denom / s3nom
+    let t3 := 2.0 * Float.cbrt (tol * Float.abs s3inv)
+    let t := goMin (goMin t2 t3) 1.0
+    -- f410714: shorten the step until the piece is flat with respect to its chord
+    let t := halve tol c 20 t
+    if 1.0 <= t then .stop else .cut t
+  if ptEquals c.p0 c.p1 then
+    if ptEquals c.p0 c.p2 then .straight else body (GenF.Point.Sub c.p2 c.p0)
+  else body (GenF.Point.Sub c.p1 c.p0)
 
 /-- flattenSmoothCubicBezier appended to the reversed polyline `rev` -/
 def smooth (rev : List (Pt Float)) (c : Cub Float) (tol : Float) : Option (List (Pt Float)) :=
@@ -159,6 +192,16 @@ def inflectionRange (c : Cub Float) (t tol : Float) : Option (Float × Float) :=
         let tf := Float.cbrt (tol / s3)
         some (t - tf * (1.0 - t), t + tf * (1.0 - t))
 
+def shrinkRange (c : Cub Float) (tol t : Float) : Nat → Float → Float → Float × Float
+  | 0, tmin, tmax => (tmin, tmax)
+  | n + 1, tmin, tmax =>
+    if t.isNaN then (tmin, tmax) else
+    let a := goMax tmin 0.0
+    let b := goMin tmax 1.0
+    let q := cubSplitL (cubSplitR c a) ((b - a) / (1.0 - a))
+    if cubicDeviation q 0.0 <= 4.0 * tol then (tmin, tmax)
+    else shrinkRange c tol t n ((a + t) / 2.0) ((b + t) / 2.0)
+
 /-- addCubicBezierLine with d = 0 -/
 def addLine (rev : List (Pt Float)) (c : Cub Float) (atEnd : Bool) : List (Pt Float) :=
   if !cubKeep c then rev else lineTo rev (if atEnd then c.p3 else c.p0)
@@ -172,6 +215,9 @@ def flattenCubic (c : Cub Float) (tol : Float) : Option (List (Pt Float)) := do
     return (← smooth rev c tol).reverse
   let (t1min, t1max) ← inflectionRange c t1 tol
   let (t2min, t2max) ← inflectionRange c t2 tol
+  -- f410714: shrink a flat range around its inflection point until it is flat with respect to its chord
+  let (t1min, t1max) := shrinkRange c tol t1 20 t1min t1max
+  let (t2min, t2max) := shrinkRange c tol t2 20 t2min t2max
   if t2.isNaN && t1min <= 0.0 && 1.0 <= t1max then
     return (addLine rev c true).reverse
   let rev ← if 0.0 < t1min then smooth rev (cubSplitL c t1min) tol else pure rev
@@ -453,6 +499,10 @@ def handle : List String → Option String
   | "FC" :: args => do
     match ← floats args with
     | [a, b, c, d, e, f, g, h, tol, sc] => pure (answerScaled (flattenCubic ⟨⟨a, b⟩, ⟨c, d⟩, ⟨e, f⟩, ⟨g, h⟩⟩ tol) sc)
+    | _ => none
+  | "DV" :: args => do
+    match ← floats args with
+    | [a, b, c, d, e, f, g, h, dd] => pure (hexOfFloat (cubicDeviation ⟨⟨a, b⟩, ⟨c, d⟩, ⟨e, f⟩, ⟨g, h⟩⟩ dd))
     | _ => none
   | "INF" :: args => do
     match ← floats args with
